@@ -240,7 +240,7 @@ func TestVerifC02Seq(t *testing.T) {
 	r := verifkit.Start(t, "C02", "seq")
 	defer r.Finish("PRNG histories of 4-14 produce requests on 2 partitions (45% malformed: lastOffsetDelta +k/-k/negative/MaxInt32, messageCount off, batchLength off, 2-3 concatenated batches, truncated), acks -1/1/0, broker restarts between requests; afterwards the S3 segment objects are re-parsed and offsets checked (unique, increasing, contiguous, acked base == stored first offset); distinct = history signature; non-trivial = history with >=1 accepted malformed batch followed by another accepted batch, or a restart between accepted batches",
 		"a produce answered with an error code is not an acknowledged batch", "acks=0 produces are appended without an acknowledgement; they take part in the contiguity check through the stored log only")
-	n := r.N(500, 8000)
+	n := r.N(500, 40000)
 	for ci := 0; ci < n; ci++ {
 		rng := r.Rand(ci)
 		var hist []string
@@ -327,7 +327,7 @@ func TestVerifC02Conc(t *testing.T) {
 	r := verifkit.Start(t, "C02", "conc")
 	defer r.Finish("2-3 concurrent producers x 1-3 well-formed batches on 1 partition under the deterministic scheduler (gated uploads and offset updates); two thirds of the cases also inject <=2 upload faults (fail / fail-after-effect) and <=1 broker crash (before / after the effect of an upload or offset update) followed by a restart; afterwards the stored log (segments that have their index) is walked with every SENT batch as a candidate and checked for unique, increasing, contiguous offsets and ack-base == stored-first-offset; distinct = schedule signature; non-trivial = >=2 producers overlapped (>=2 in flight at some step)",
 		"a batch whose produce was answered with an error or never answered may or may not be in the stored log; if it is, it must still respect the offset invariants")
-	n := r.N(400, 6000)
+	n := r.N(400, 30000)
 	for ci := 0; ci < n; ci++ {
 		rng := r.Rand(ci)
 		cfg := c01Cfg(rng, 2+rng.Intn(2), 1+rng.Intn(3), 1)
